@@ -60,6 +60,17 @@ def run(ctx):
         zl = [x for x in q.raises(h, 'self.interface.tx.valid') if q.state_of(x) == S]
         ok = len(zl) == 1 and ('self.interface.status_requested', True) in q.atoms(zl[0])
         ctx.ob('C08.status-zlp', 'StandardRequestHandler.%s.zlp' % nm, ok, zl[0].loc if zl else None, 'the status stage is answered with a ZLP only when it is requested')
+        # a request that is STALLed must not take effect: whatever condition makes this state STALL its status stage must
+        # keep the commit strobe low (the host never ACKs a STALLed request, the next ACK on the bus is someone else's)
+        for sx in [x for x in q.raises(h, 'self.interface.handshakes_out.stall') if q.state_of(x) == S]:
+            if ('0', True) in q.atoms(sx) or ('1', False) in q.atoms(sx):
+                continue                       # stall_condition folds to constant false (the default): the site is dead
+            cond = {(x, p) for x, p in q.atoms(sx) - q.atoms(a) if x != 'self.interface.status_requested'
+                    and not x.startswith('0 == self.interface.setup.type')}
+            excluded = any((x, not p) in q.atoms(a) for x, p in cond)
+            ctx.ob('C08.no-commit-when-stalled', 'StandardRequestHandler.%s.stall-excludes-commit' % nm, not cond or excluded, a.loc,
+                   'state %s STALLs its status stage under %s but %s is raised regardless: the rejected value is committed by the '
+                   'next ACK seen on the bus' % (S, sorted(cond), nm))
         # (d)
         ga = {x for x, p in q.atoms(a) if p}
         own = [x for x in ga if x not in (ACK, '0 == self.interface.setup.type')]
